@@ -5,14 +5,14 @@ ROOT = os.path.abspath(os.path.join(os.path.dirname(__file__), '..'))
 TB = 'Trusted: Lean 4.33.0 kernel (axioms printed per theorem, at most propext/Quot.sound/Classical.choice), translator/amc2lean.py + clang 14 AST, hand-written Prim/ semantics, the C++ harness and its oracles.'
 TECH = 'machine-checked proof in Lean 4 (theorems over a model tied to /repo by a clang-AST->Lean translator and by a differential correspondence check)'
 P = {
- 'C01': ('proof', 'Lean theorems over the generated size/capacity word functions (size bookkeeping of every operation shape tracks std::vector through every history; move/swap) + three-way correspondence impl / slot-level Lean model / std::vector on random histories incl. aliasing arguments and single-pass ranges',
-         'Element sequences, return values and positions are tied by correspondence only (hand-written slot model); theorems cover the word bookkeeping regenerated from the source on every run. 64-bit size_type: step theorems under capacity < 2^62. ' + TB),
+ 'C01': ('proof', 'Lean theorems (Props/C01.lean) over the generated size/capacity word functions (size bookkeeping of every operation shape tracks std::vector through every history; move/swap) and (Props/C01b.lean) over the slot-level model: each of 23 public operation kinds, from any state representing a list xs that satisfies the std::vector precondition, ends representing exactly the std::vector result (or throws), for every flavour and size type; histories of them end in a list the std::vector semantics allows; begin()..end() shows exactly the represented list + three-way correspondence impl / slot-level Lean model / std::vector on random histories incl. aliasing arguments and single-pass ranges',
+         'The slot-level model of the public operations is hand-written (tied by correspondence); the size/capacity/pointer members it calls and the law packages (VecLaws) are regenerated and re-proved from the source on every run. Move/swap between containers, shrink_to_fit, single-pass ranges and multi-element insertion exceptions: word-level theorems + correspondence. 64-bit size_type: word-level step theorems under capacity < 2^62. ' + TB),
  'C03': ('proof', 'Lean theorems on the FlatSet list model for every strict weak order (sortedness invariant of every mutator, insert inserts iff no equivalent element, lookups by equivalence, bulk = one-by-one insertion, hinted = plain insertion, binary search = specification lower bound) + correspondence impl / model / std::set over 4 comparators x 4 underlying vectors',
          'Hand-written model tied by correspondence; std algorithms (sort/inplace_merge/unique) modelled at specification level; heterogeneous lookups and cross-comparator merge not exercised yet. ' + TB),
  'C04': ('proof', 'Lean theorems on the SmallSet {inline vector, backing set} model for every strict weak order (state invariant kept by insert/erase/grow, insert and find answer by membership up to equivalence in either state and across grow) + correspondence impl / model / std::set with grow-drain-refill histories, both backing sets',
          'Hand-written model tied by correspondence; std::set is modelled as a sorted duplicate-free list. ' + TB),
  'C05': ('proof', 'Lean theorem: every history confined to N keeps an inline SmallVector inline with capacity N and emits no effect (over generated words); move/swap between inline vectors; FixedCapacityVector base members have no allocator effect and a constant begin(); + confined-history correspondence with allocator ledger',
-         'SmallSet clause: inline-state allocation is observed through the set harness ledger only. Global operator new is not instrumented (allocator ledger only). ' + TB),
+         'SmallSet clause: decided by a counting allocator on histories whose key domain has exactly N keys (correspondence only). Global operator new is not instrumented (allocator ledger only). ' + TB),
  'C07': ('proof', 'Lean theorems (bounds, capacity monotone along histories, reserve, no reallocation when the result fits, buffer hand-over on move/swap) over generated words + correspondence of capacity()/allocator calls/element event counts',
          'data() identity is observed through allocator-call counts and inline/heap state, not raw addresses. ' + TB),
  'C08': ('proof', 'Lean theorems: overflow_error iff needed > size_type max, raised before any word is written; out_of_range of the generated Check; no wrap-around (laws in unbounded arithmetic over definitions computed modulo 2^bits) + near-limit histories with before/after comparison under ASan/UBSan',
